@@ -5,8 +5,8 @@
     ([wt_design], [assoc_ok], [case_ok], [ports_ok], [sens_ok], [idents_ok], [decl_unique],
     [no_reserved], [no_hiding]) are evaluated by the harness inside Coq on every entity of every
     compiled design; the inclusions "VHDL-93 reserved words / predefined names used by the emitter are
-    in the emitter's live table" are proved by a file the harness regenerates from /repo on every run
-    (gen/C06/TablesCheck.v). *)
+    in the emitter's live table" are proved by files the harness regenerates from /repo on every run
+    (gen/C06/T_*.v against gen/C06/Tables.v); both hold on the current tree (94f10ee). *)
 From Coq Require Import ZArith NArith PArith List Bool String FMapPositive.
 Import ListNotations.
 From Cohdl Require Import Base.Bits Vhdl.Value Vhdl.NumStd Vhdl.Syntax Vhdl.Sem Vhdl.Typing Vhdl.Names
@@ -67,6 +67,10 @@ Print Assumptions C06_rejects_uminus_unsigned.
 (** ** names *)
 Local Open Scope string_scope.
 
+(** [uniquify] models the CURRENT [VhdlScope.complete_setup]: a request is (raw name, fallback of the
+    object's kind); strip, collapse runs of underscores, empty -> fallback, lower-case collision test,
+    doubling then binary search.  The theorems hold for every normalisation ([Names.assign_distinct] ...),
+    so they also cover the code as it was before 3102177 ([uniquify_strip]). *)
 Theorem C06_uniquify_distinct : forall used reqs,
   NoDup (map lower (uniquify used reqs)) /\ forall n, In n (uniquify used reqs) -> ~ In (lower n) used.
 Proof. exact uniquify_distinct. Qed.
@@ -100,13 +104,35 @@ Theorem C06_uniquify_child_distinct : forall used parent child,
 Proof. exact uniquify_child_distinct. Qed.
 Print Assumptions C06_uniquify_child_distinct.
 
+(** enumeration literals are reserved before any name is assigned (60980b9): no object of the entity
+    gets the name of a literal *)
+Theorem C06_uniquify_avoids_literals : forall used lits reqs n l,
+  In n (uniquify_module used lits reqs) -> In l lits -> lower n <> lower l.
+Proof. exact uniquify_avoids_literals. Qed.
+Print Assumptions C06_uniquify_avoids_literals.
+
+(** the normalisation leaves no adjacent underscores (3102177) *)
+Theorem C06_normalize_no_double_underscore : forall s b, no_double_us b (collapse_us b s) = true.
+Proof. exact collapse_no_double_us. Qed.
+Print Assumptions C06_normalize_no_double_underscore.
+
 Example C06_uniquify_example :
   uniquify ["signal"; "foo"; "temp"; "temp1"; "temp2"; "temp3"]
-           ["_Signal_"; "Foo"; "foo"; "temp"; "temp"; "x__y"; "temp"]
-  = ["Signal1"; "Foo1"; "foo2"; "temp4"; "temp5"; "x__y"; "temp6"]
-  /\ ident_ok "x__y" = false.
+           [("_Signal_", "sig"); ("Foo", "sig"); ("foo", "sig"); ("temp", "temp"); ("temp", "temp");
+            ("x__y", "sig"); ("temp", "temp"); ("__", "var")]
+  = ["Signal1"; "Foo1"; "foo2"; "temp4"; "temp5"; "x_y"; "temp6"; "var"]
+  /\ uniquify_module ["signal"] ["state_0"; "GREEN"] [("state_0", "sig"); ("green", "sig")] = ["state_01"; "green1"].
 Proof. vm_compute. split; reflexivity. Qed.
 Print Assumptions C06_uniquify_example.
+
+(** regression witness: the name assignment as it was before 3102177 produced an illegal and an empty
+    identifier for requests the current one handles *)
+Example C06_uniquify_before_fix_refuted :
+  uniquify_strip ["signal"] ["x__y"; "__"] = ["x__y"; ""]
+  /\ forallb ident_ok (uniquify_strip ["signal"] ["x__y"; "__"]) = false
+  /\ forallb ident_ok (uniquify ["signal"] [("x__y", "sig"); ("__", "sig")]) = true.
+Proof. vm_compute. repeat split. Qed.
+Print Assumptions C06_uniquify_before_fix_refuted.
 
 (** the naming rules do reject: a port [state_0] beside the enumeration literal [state_0] of a state type;
     a signal [to_integer] in a text that calls the function; a reserved word; a double underscore *)
